@@ -68,7 +68,16 @@ func c06HostFinalizeRead(fs *FileSystem, disk *vpdev.MemDev, start int64, opts F
 		return nil
 	}
 	disk.NoWrites = true
-	rd, err := Read(disk, c06HostDevSize, start, 2048)
+	// Finalize begins with one write of 32 KiB zeros (the system area), Read fetches those 32 KiB in one call
+	// and ignores them: c06Dev (zz_vp_c06_read.go) delivers that one read as zeros without evaluating 32768
+	// device bytes against every write record (about 8 of the 30 million steps a harness may take)
+	vp.Assert(len(disk.Log) > 0, "Finalize wrote")
+	if len(disk.Log) == 0 {
+		return nil
+	}
+	vp.Assert(disk.Log[0].Off == start, "first write of Finalize at the start of the image")
+	vp.Assert(disk.Log[0].Len == int(systemAreaSize), "first write of Finalize covers the system area")
+	rd, err := Read(&c06Dev{MemDev: disk, sysStart: start}, c06HostDevSize, start, 2048)
 	if err != nil && !vp.Symbolic() {
 		println("READ ERROR:", err.Error())
 	}
@@ -98,12 +107,18 @@ func c06HostSmall(rr bool, asize, bsize int) {
 	a, b := vp.Bytes("a", capA), vp.Bytes("b", capB)
 	amode := os.FileMode(vp.U16("amode")) & 0o777
 	mtime := int64(vp.U32("amtime"))
-	vp.Assert(vphost.WriteFile(ws+"/a.txt", a[:asize], 0o644) == nil, "workspace file a.txt")
+	// the permission bits go in through WriteFile (mode = amode, a term whose type bits are syntactically 0)
+	// rather than through Chmod (mode = old&^bits | amode&bits: the engine does not see that the type bits of
+	// that term are 0 and runs Finalize's IsDir()/ModeSymlink tests on a.txt down both arms)
+	aperm := os.FileMode(0o644)
+	if rr {
+		aperm = amode
+	}
+	vp.Assert(vphost.WriteFile(ws+"/a.txt", a[:asize], aperm) == nil, "workspace file a.txt")
 	vp.Assert(vphost.MkdirAll(ws+"/sub", 0o755) == nil, "workspace dir sub")
 	vp.Assert(vphost.WriteFile(ws+"/sub/b", b[:bsize], 0o600) == nil, "workspace file sub/b")
+	vp.Assert(vphost.Chtimes(ws+"/a.txt", mtime) == nil, "chtimes a.txt")
 	if rr {
-		vp.Assert(vphost.Chmod(ws+"/a.txt", amode) == nil, "chmod a.txt")
-		vp.Assert(vphost.Chtimes(ws+"/a.txt", mtime) == nil, "chtimes a.txt")
 		vp.Assert(vphost.Symlink("a.txt", ws+"/l") == nil, "workspace symlink l")
 	}
 	vp.Unwind(24)
@@ -141,16 +156,17 @@ func c06HostSmall(rr bool, asize, bsize int) {
 		if rr {
 			vp.Assert(fi.Mode().Perm() == amode, "permission bits of a.txt")
 			vp.Assert(fi.Mode().IsRegular(), "a.txt is a regular file")
-			// the recording date is 7 civil-time bytes. The engine's calendar is a contract model (Year..Second of
-			// a second count and the second count of a civil date are uninterpreted functions), so the expected
-			// value is rebuilt from the same civil components (natively exp == time.Unix(mtime, 0)). Every
-			// uint32 second count lies in the years 1970..2106 (a fact of the calendar, stated for the engine).
-			want := time.Unix(mtime, 0).UTC()
-			vp.Assume(want.Year() >= 1970)
-			vp.Assume(want.Year() <= 2106)
-			exp := time.Date(want.Year(), want.Month(), want.Day(), want.Hour(), want.Minute(), want.Second(), 0, time.UTC)
-			vp.Assert(fi.ModTime().Unix() == exp.Unix(), "mtime of a.txt")
 		}
+		// the modification time is the recording date of the directory record (with and without Rock Ridge):
+		// 7 civil-time bytes. The engine's calendar is a contract model (Year..Second of a second count and the
+		// second count of a civil date are uninterpreted functions), so the expected value is rebuilt from the
+		// same civil components (natively exp == time.Unix(mtime, 0)). Every uint32 second count lies in the
+		// years 1970..2106 (a fact of the calendar, stated for the engine).
+		wt := time.Unix(mtime, 0).UTC()
+		vp.Assume(wt.Year() >= 1970)
+		vp.Assume(wt.Year() <= 2106)
+		exp := time.Date(wt.Year(), wt.Month(), wt.Day(), wt.Hour(), wt.Minute(), wt.Second(), 0, time.UTC)
+		vp.Assert(fi.ModTime().Unix() == exp.Unix(), "mtime of a.txt")
 	}
 	if rr {
 		vp.Assert(ents[1].Name() == "l", "entry l")
@@ -514,4 +530,104 @@ func VP_C06_host_block_boundary() {
 // the configuration KF-C06-10 was found in: with Joliet the Joliet root directory follows the file data
 func VP_C06_host_block_boundary_joliet() {
 	c06HostBoundary(FinalizeOptions{Joliet: true}, [4]string{"a.bin", "b.bin", "c.bin", "d.bin"})
+}
+
+// c06HostMultiSector: a directory big/ with n files f00.txt .. (empty, except the files `read`: two bytes, the
+// second one a solver variable) whose records need more than one 2048-byte sector (a record never
+// crosses a sector boundary: the rest of the sector is zero and the listing continues in the next one), next to
+// a file in the root that follows all of them: big/ lists exactly its n files in order and every file reads
+// back its own bytes (read: the files `read`, which include the last record of the first sector and the first
+// of the second one - every OpenFile fetches the whole listing byte by byte from the device model).
+func c06HostMultiSector(rr bool, n int, read []int) {
+	vp.HostFS()
+	vp.FixedNow(c06HostNow)
+	disk := vpdev.NewMemDev("disk", -1)
+	fs, ws := c06HostCreate(disk, 0)
+	if fs == nil {
+		return
+	}
+	vp.Assert(vphost.MkdirAll(ws+"/big", 0o755) == nil, "workspace dir big")
+	names := make([]string, n)
+	want := make([]string, n)
+	isDir := make([]bool, n)
+	data := make([][]byte, n)
+	for i := 0; i < n; i++ {
+		names[i] = "f" + string(rune('0'+i/10)) + string(rune('0'+i%10)) + ".txt"
+		want[i] = names[i]
+		if !rr {
+			want[i] = "F" + names[i][1:3] + ".TXT"
+		}
+		// only the files that are read back have content: every non-empty file adds two write records (data,
+		// padding) to the device model and every device byte fetched later is matched against every record
+		data[i] = []byte{}
+		for _, r := range read {
+			if r == i {
+				data[i] = []byte{byte(i + 1), vp.U8("probe" + names[i][1:3])}
+			}
+		}
+		vp.Assert(vphost.WriteFile(ws+"/big/"+names[i], data[i], 0o644) == nil, "workspace file in big")
+	}
+	tail := []byte("the file after the big directory")
+	vp.Assert(vphost.WriteFile(ws+"/tail.txt", tail, 0o644) == nil, "workspace file tail.txt")
+	vp.Unwind(n + 40)
+	rd := c06HostFinalizeRead(fs, disk, 0, FinalizeOptions{RockRidge: rr})
+	if rd == nil {
+		return
+	}
+	big, tailName := "BIG", "TAIL.TXT"
+	if rr {
+		big, tailName = "big", "tail.txt"
+	}
+	c06HostListing(rd, ".", []string{big, tailName}, []bool{true, false})
+	c06HostListing(rd, big, want, isDir)
+	// the listing really spans more than one sector
+	if des, err := rd.readDirectory(big); err == nil && len(des) > 0 {
+		vp.Assert(des[0].isSelf, "first record of big is its self entry")
+		vp.Assert(des[0].size > 2048, "the records of big need more than one sector")
+		// (Finalize records the end of the last record as the data length, not whole sectors as ECMA-119
+		// 6.8.1.3 has it; the existing C06.dir_* harnesses take that layout as the reference, so do we)
+	}
+	for _, i := range read {
+		c06HostFile(rd, big+"/"+want[i], data[i])
+	}
+	c06HostFile(rd, tailName, tail)
+	vp.Cover("multi-sector directory read back")
+}
+
+// plain: self and parent 34 bytes each, 42 bytes per file record: records 0..46 in the first sector
+func VP_C06_host_multisector_dir() { c06HostMultiSector(false, 60, []int{0, 46, 47, 59}) }
+
+// Rock Ridge: self and parent 104 bytes each (PX, TF), 124 bytes per file record (PX, TF, NM): 0..13 in the first sector
+func VP_C06_host_multisector_dir_rr() { c06HostMultiSector(true, 24, []int{0, 13, 14, 23}) }
+
+// VP_C06_host_joliet_small: FinalizeOptions{Joliet: true} (no Rock Ridge): the image is read through the
+// Joliet tree, names are preserved exactly (mixed case, blank, long): "Read Me first.txt", "Sub Dir/b.txt",
+// "Sub Dir/Deeper Dir/c.txt".
+func VP_C06_host_joliet_small() {
+	vp.HostFS()
+	vp.FixedNow(c06HostNow)
+	disk := vpdev.NewMemDev("disk", -1)
+	fs, ws := c06HostCreate(disk, 0)
+	if fs == nil {
+		return
+	}
+	ca, cb, cc := vp.Bytes("a", 7), []byte("bravo"), []byte("charlie")
+	vp.Assert(vphost.MkdirAll(ws+"/Sub Dir/Deeper Dir", 0o755) == nil, "workspace dirs")
+	vp.Assert(vphost.WriteFile(ws+"/Read Me first.txt", ca, 0o644) == nil, "workspace file Read Me first.txt")
+	vp.Assert(vphost.WriteFile(ws+"/Sub Dir/b.txt", cb, 0o644) == nil, "workspace file b.txt")
+	vp.Assert(vphost.WriteFile(ws+"/Sub Dir/Deeper Dir/c.txt", cc, 0o644) == nil, "workspace file c.txt")
+	vp.Unwind(60)
+	rd := c06HostFinalizeRead(fs, disk, 0, FinalizeOptions{Joliet: true})
+	if rd == nil {
+		return
+	}
+	vp.Assert(rd.jolietEnabled, "Joliet detected")
+	d, f := true, false
+	c06HostListing(rd, ".", []string{"Read Me first.txt", "Sub Dir"}, []bool{f, d})
+	c06HostFile(rd, "Read Me first.txt", ca)
+	c06HostListing(rd, "Sub Dir", []string{"Deeper Dir", "b.txt"}, []bool{d, f})
+	c06HostFile(rd, "Sub Dir/b.txt", cb)
+	c06HostListing(rd, "Sub Dir/Deeper Dir", []string{"c.txt"}, []bool{f})
+	c06HostFile(rd, "Sub Dir/Deeper Dir/c.txt", cc)
+	vp.Cover("Joliet tree read back")
 }
